@@ -645,3 +645,40 @@ def any_model(draw, targets=None, n_min=1, n_max=3, depth=1, tables=True, custom
         m["kind"] = "pair"
     m["target"] = target
     return m
+
+
+@st.composite
+def special_pair_model(draw, kind, dlpoly=False):
+    """pair models aimed at value classes that random parameters almost never hit:
+    root_on_grid -- the energy is EXACTLY zero at a grid node while its slope is not (dyadic grid spacing, linear
+                    potential or Lennard-Jones with sigma on a node);
+    decay_tail   -- fast exponential tails (either sign) that run through 1e-99 .. 1e-308 and underflow."""
+    a, b = draw(st.sampled_from([("A", "B"), ("O", "U"), ("Mg", "O"), ("Xx", "Xx")]))
+    if kind == "root_on_grid":
+        q = draw(st.sampled_from([2, 3, 4]))
+        step = 2.0 ** -q
+        rows = draw(st.integers(6, 24)) * 4 if dlpoly else draw(st.integers(12, 60))
+        nr = rows if dlpoly else rows + 1
+        cutoff = (nr - 4) * step if dlpoly else (nr - 1) * step
+        k = draw(st.integers(2, (nr - 5 if dlpoly else nr - 2)))
+        rk = k * step
+        c = draw(st.sampled_from([1, 2, 0.5, -1, 3]))
+        body = draw(st.sampled_from([
+            {"k": "form", "name": "polynomial", "p": [-c * rk, c]},
+            {"k": "form", "name": "lj", "p": [draw(st.sampled_from([0.0104, 0.5, 1.0])), rk]},
+            {"k": "mod", "m": "sum", "args": [_single({"k": "form", "name": "constant", "p": [-c * rk]}),
+                                                _single({"k": "form", "name": "polynomial", "p": [0, c]})]}]))
+        pd = _single(body)
+    else:
+        nr = draw(st.integers(6, 20)) * 4 if dlpoly else draw(st.integers(20, 80))
+        cutoff = draw(st.sampled_from([20.0, 25.0, 32.0, 40.0]))
+        A = draw(st.sampled_from([-100.0, -3.0, -1, 1, 25.0, 1000.0]))
+        rho = draw(st.sampled_from([0.04, 0.05, 0.08, 0.1]))
+        body = draw(st.sampled_from([
+            {"k": "form", "name": "bornmayer", "p": [A, rho]},
+            {"k": "form", "name": "buck", "p": [A, rho, 0]},
+            {"k": "mod", "m": "product", "args": [_single({"k": "form", "name": "bornmayer", "p": [A, 2 * rho]}),
+                                                    _single({"k": "form", "name": "bornmayer", "p": [1.0, 2 * rho]})]}]))
+        pd = _single(body)
+    return {"env": {"custom": [], "table": []}, "pair": [[a, b, pd]], "species": sorted(set([a, b])),
+            "cutoff": cutoff, "nr": nr, "special": kind}
